@@ -374,7 +374,7 @@ func (w *worker) eval(a *refsmb.Assign, r *explore.Run, ax *andx.AndX) {
 
 // parallelTwins: what a structure encodes to does not depend on what OTHER goroutines encode at the same time
 // (each on structures of its own - the caller shares nothing). The single-deviation assignments of the
-// structure are encoded once sequentially, then by four goroutines at once, each walking the list from another
+// structure are encoded once sequentially, then by eight goroutines at once (24 rounds each), each walking the list from another
 // starting point; every result must be the sequential one. This part SAMPLES schedules (free-running
 // goroutines): it can miss a shared scratch variable, it cannot report one that is not there. A package-level
 // variable without any lock is invisible to the controlled scheduler, which is why it is done this way.
@@ -413,7 +413,7 @@ func (w *worker) parallelTwins() {
 	if len(ok) < 2 {
 		return
 	}
-	const G, rounds = 4, 6
+	const G, rounds = 8, 24
 	type bad struct {
 		label    string
 		got, exp []byte
@@ -449,7 +449,7 @@ func (w *worker) parallelTwins() {
 	}
 	w.c.Case([]byte(cmd.Name), []byte("parallel-twins"))
 	w.check(w.key("marshal/same-bytes-while-other-goroutines-marshal-structures-of-their-own"), first == nil, func() string {
-		return fmt.Sprintf("%s{%s}.Marshal() = %s while three other goroutines were marshalling other %s values; alone it gives %s", cmd.Name, first.label, vf.HexS(first.got), cmd.Name, vf.HexS(first.exp))
+		return fmt.Sprintf("%s{%s}.Marshal() = %s while seven other goroutines were marshalling other %s values; alone it gives %s", cmd.Name, first.label, vf.HexS(first.got), cmd.Name, vf.HexS(first.exp))
 	})
 }
 
